@@ -1,5 +1,5 @@
 // Package simtime is a drop-in replacement for package time: everything is re-exported unchanged
-// (inside a synctest bubble those run on the fake clock) except tickers, which are owned by the
+// (inside a synctest bubble those run on the fake clock) except tickers and timers, which are owned by the
 // deterministic scheduler while a simulation is active.
 package simtime
 
@@ -15,7 +15,6 @@ type (
 	Month      = time.Month
 	Weekday    = time.Weekday
 	Location   = time.Location
-	Timer      = time.Timer
 	ParseError = time.ParseError
 )
 
@@ -78,9 +77,7 @@ func Now() Time                                   { return time.Now() }
 func Since(t Time) Duration                       { return time.Since(t) }
 func Until(t Time) Duration                       { return time.Until(t) }
 func Sleep(d Duration)                            { time.Sleep(d) }
-func After(d Duration) <-chan Time                { return time.After(d) }
-func AfterFunc(d Duration, f func()) *Timer       { return time.AfterFunc(d, f) }
-func NewTimer(d Duration) *Timer                  { return time.NewTimer(d) }
+func After(d Duration) <-chan Time                { return NewTimer(d).C }
 func Unix(sec int64, nsec int64) Time             { return time.Unix(sec, nsec) }
 func UnixMilli(msec int64) Time                   { return time.UnixMilli(msec) }
 func UnixMicro(usec int64) Time                   { return time.UnixMicro(usec) }
@@ -93,6 +90,45 @@ func Date(year int, month Month, day, hour, min, sec, nsec int, loc *Location) T
 }
 func ParseInLocation(layout, value string, loc *Location) (Time, error) {
 	return time.ParseInLocation(layout, value, loc)
+}
+
+// Timer mirrors time.Timer: owned by the deterministic scheduler while a simulation is active.
+type Timer struct {
+	C    <-chan Time
+	real *time.Timer
+	sim  *sched.Ticker
+}
+
+func NewTimer(d Duration) *Timer {
+	if s := sched.Active(); s != nil {
+		st := s.NewTimer(d)
+		return &Timer{C: st.C, sim: st}
+	}
+	rt := time.NewTimer(d)
+	return &Timer{C: rt.C, real: rt}
+}
+
+// AfterFunc is not simulated (the function would run on a goroutine the scheduler does not own).
+func AfterFunc(d Duration, f func()) *Timer {
+	rt := time.AfterFunc(d, f)
+	return &Timer{C: rt.C, real: rt}
+}
+
+func (t *Timer) Stop() bool {
+	if t.sim != nil {
+		return t.sim.Stop()
+	}
+	return t.real.Stop()
+}
+
+func (t *Timer) Reset(d Duration) bool {
+	if t.sim != nil {
+		if s := sched.Active(); s != nil {
+			return s.ResetTimer(t.sim, d)
+		}
+		return false
+	}
+	return t.real.Reset(d)
 }
 
 // Ticker mirrors time.Ticker.
